@@ -44,6 +44,12 @@ pub fn run_c13<A: Cx>(d: &mut Drv<A>, scale: usize) {
         d.emit(json!({"op": "fromsyms", "dst": 1, "c": "dna", "via": "vec", "syms": t}));
         d.emit(json!({"op": "itrun", "kind": "windows", "x": sl(1, off, off + n), "y": whole(1), "w": 3}));
         d.emit(json!({"op": "itrun", "kind": "chunks", "x": sl(1, off, off + n), "y": whole(1), "w": 3}));
+        // the same triplets reached through skip / step_by / nth / fold on the chunk and window iterators
+        for kind in ["chunks", "windows"] {
+            let adv = d.rng.range(0, 3);
+            let consumer = *d.rng.pick(&crate::scen::c11::CONSUMERS);
+            d.emit(json!({"op": "itmix", "kind": kind, "x": sl(1, off, off + n), "w": 3, "adv": adv, "consumer": consumer}));
+        }
         let mut i = 0;
         while i + 3 <= n {
             // window i and (every third) chunk i/3 are the same triplet
@@ -137,7 +143,11 @@ pub fn run_c15<A: Cx>(d: &mut Drv<A>, scale: usize) {
         // values drawn from a few residues so that 0 / 1 / 2 / 3+ preimages all occur
         let npool = if nkeys > 9 { 7 } else { 3 };
         let pool: Vec<u8> = (0..npool).map(|_| *d.rng.pick(&aminos)).collect();
-        let entries: Vec<Value> = keys.iter().map(|k| json!({"k": k, "v": *d.rng.pick(&pool)})).collect();
+        // keys are built in different ways: parsed/collected, truncated, drained, copied out of an offset window
+        let entries: Vec<Value> = keys
+            .iter()
+            .map(|k| json!({"k": k, "v": *d.rng.pick(&pool), "mk": *d.rng.pick(&["collect", "truncate", "remove", "offset", "clearpush"])}))
+            .collect();
         // repeated construction: a fresh RandomState (iteration order) each time
         for rep in 0..4 {
             let t = rep % 4;
